@@ -435,6 +435,19 @@ def call_parse_batch(batch):
             if isinstance(e, (KeyboardInterrupt, SystemExit)):
                 raise
             built.append((None, fmts, e))
+    # ... and next to every parser whose reference time is timezone-aware, a parser for the SAME INSTANT written in
+    # another zone is constructed as well (never used): settings that compare equal are not the same settings
+    from harness.neighbours import equal_instant_twin
+    shadows = []
+    for c in cases:
+        tw = equal_instant_twin(c.get("settings"))
+        if tw is not None:
+            kw = dict(c.get("kw") or {})
+            kw.pop("date_formats", None)
+            try:
+                shadows.append(DateDataParser(settings=decode_settings(tw), **kw))
+            except Exception:  # noqa
+                pass
     out = [None] * len(cases)
     for i in reversed(range(len(cases))):
         p, fmts, err = built[i]
@@ -777,9 +790,23 @@ def call_c13(case):
         res["multi"] = _ddp_outcome(case["s"], dict(st), use_given_order=bool(case["given"]), **{via: list(case["langs"])})
         res["tries"] = [[e["loc"], e["ok"]] for e in _state.events if e.get("ev") == "locale_try"]
         res["probe_bound"] = "_DateLocaleParser.parse" not in _PROBE["unbound"]
+        # each fallback language on its own (the selected languages stay selected): what the fallback is made of
+        res["defsingles"] = []
+        for d_ in case.get("deforder", []):
+            st1 = dict(st)
+            st1["DEFAULT_LANGUAGES"] = [d_]
+            res["defsingles"].append(_ddp_outcome(case["s"], st1, use_given_order=bool(case["given"]), **{via: list(case["langs"])}))
+        # a program holds ONE settings dict and ONE list of languages and passes them again: first with the other value of
+        # use_given_order (history, not judged), then the judged call; the lists must still be what the caller wrote
         st2 = dict(st)
-        st2["DEFAULT_LANGUAGES"] = list(case["defaults"])
-        res["multidef"] = _ddp_outcome(case["s"], st2, use_given_order=bool(case["given"]), **{via: list(case["langs"])})
+        held_defaults, held_langs = list(case["defaults"]), list(case["langs"])
+        st2["DEFAULT_LANGUAGES"] = held_defaults
+        try:
+            _ddp_outcome(case["s"], st2, use_given_order=not bool(case["given"]), **{via: held_langs})
+        except Exception:  # noqa
+            pass
+        res["multidef"] = _ddp_outcome(case["s"], st2, use_given_order=bool(case["given"]), **{via: held_langs})
+        res["held"] = held_defaults == list(case["defaults"]) and held_langs == list(case["langs"])
         res["auto"] = _ddp_outcome(case["s"], dict(st))
         if res["auto"]["loc"]:
             from dateparser.data import language_order
@@ -799,6 +826,8 @@ def call_c13(case):
         for k in ("multi", "multidef", "auto", "reparse", "region", "asLocale"):
             res.setdefault(k, {"loc": "", "res": []})
         res.setdefault("tries", [])
+        res.setdefault("defsingles", [])
+        res.setdefault("held", True)
         res.setdefault("probe_bound", False)
     return res
 
